@@ -8,9 +8,15 @@
 mod engine;
 mod util;
 
+mod api;
+mod c02;
+mod c03;
+mod c06;
 mod c07;
 mod c12;
+mod c14;
 mod gen;
+mod pq;
 
 use engine::{Env, Tier};
 use std::path::PathBuf;
@@ -43,7 +49,11 @@ fn main() {
     let prop: &'static str = Box::leak(args[1].clone().into_boxed_str());
     let env = Env { prop, tier, seed, workers, known: engine::load_known(&verif_dir), verif_dir, strict_replay: replay.is_some() };
     let code = match prop {
+        "C02" => c02::run(&env, replay.as_deref()),
+        "C03" => c03::run(&env, replay.as_deref()),
+        "C06" => c06::run(&env, replay.as_deref()),
         "C07" => c07::run(&env, replay.as_deref()),
+        "C14" => c14::run(&env, replay.as_deref()),
         "C12" => c12::run(&env, replay.as_deref()),
         _ => {
             eprintln!("unknown property {}", prop);
